@@ -81,6 +81,54 @@ REGRESSION = [
 ]
 
 
+def http_stage(run):
+    import api_run
+    from api_run import hx, kv
+    ok, exe, out = api_run.build()
+    if not ok:
+        return ("harness", "the API harness no longer builds: " + out[-400:], []), 0
+    rng = run.rng
+    nscen = 2 if run.tier == "quick" else 20
+    n = 0
+    for _ in range(nscen):
+        ops = list(api_run.BOOT) + ["create a", "create b"]
+        cm = 10
+        for who, nick in (("a", "alice"), ("b", "bob")):
+            for text in ("NICK " + nick, "USER u 0 * :real", "JOIN #c"):
+                cm += 1
+                ops.append("post %s ok %d %s" % (who, cm, hx(text)))
+        k = rng.randrange(4, 12)
+        for j in range(k):
+            cm += 1
+            ops.append("post a ok %d %s" % (cm, hx(rng.choice(["PRIVMSG #c :r-%03d" % j, "WHO #c", "TOPIC #c :t%d" % j, "NAMES #c"]))))
+        ops.append("get b ok 0.0")
+        full_i = len(ops) - 1
+        probes = []
+        for _ in range(6):
+            pos = rng.randrange(0, 25)
+            lag = rng.choice(["@%d-" % max(0, pos - rng.randrange(0, 4)), "@%d" % pos, "@%d" % max(0, pos - rng.randrange(1, 5)), "0", "@%d" % (pos + 2)])
+            ops.append("lagget b ok @%d %s 400" % (pos, lag))
+            probes.append(len(ops) - 1)
+        gl, err = api_run.run_ops(exe, ops, tag="c04h")
+        if err or len(gl) != len(ops):
+            return ("harness", err or "output has %d lines for %d ops" % (len(gl), len(ops)), ops), n
+        full = [m for m in kv(gl[full_i]).get("msgs", "").split(",") if m]
+        fpos = [tuple(int(x) for x in m.split(":")[0].split(".")) for m in full]
+        for pi in probes:
+            r = kv(gl[pi])
+            n += 1
+            if r.get("status") != "200":
+                return ("status", "resume on a lagging node was answered %s" % gl[pi][:100], ops[:pi + 1]), n
+            ls = tuple(int(x) for x in r["lastseen"].split("."))
+            want = [m for m, p in zip(full, fpos) if p > ls]
+            got = [m for m in r.get("msgs", "").split(",") if m]
+            if got != want:
+                gp = [m.split(":")[0] for m in got]
+                wp = [m.split(":")[0] for m in want]
+                return ("delivery", "resume at %s on a node that had stored up to %s: delivered %s, the messages after that position are %s" % (r["lastseen"], r.get("lagid"), gp[:12], wp[:12]), ops[:pi + 1]), n
+    return None, n
+
+
 def check(run):
     nchains = 250 if run.tier == "quick" else 6000
     proved = run.prove()
@@ -109,9 +157,15 @@ def check(run):
             lag["mid_batch"] += 1
         if g != e and bad is None:
             bad = (i, "delivered %s, the messages after %s.%s are %s" % (g, h[2], h[3], e))
+    # the same at the HTTP level: the real handleGetMessages (parsing of lastseen, session filter, flushing)
+    # on a node whose output stream lags behind the client's position and catches up while the request is served
+    hbad, hn = http_stage(run)
+    run.obligation("HTTP level: handleGetMessages on a lagging node delivers exactly the messages after lastseen (%d resumes)" % hn, hbad is None, hbad[1] if hbad else "")
     if bad is not None:
         i, why = bad
         run.violation("oracle:delivery", why, {"kind": "resume", "op": ops[i], "go": gl[i], "expected": expects[i]}, True)
+    elif hbad is not None:
+        run.violation("oracle:http-" + hbad[0], hbad[1], {"kind": "api", "ops": hbad[2], "why": hbad[1]}, hbad[0] != "harness")
     elif not proved or not corr_ok:
         failed = [o[0] for o in run.failed_obligations()]
         run.violation("broken:" + (failed[0] if failed else "?")[:40], "proof or correspondence no longer checks: %s" % failed,
@@ -129,6 +183,15 @@ def check(run):
 def replay(run, path):
     import json
     r = json.load(open(path))
+    if r.get("replay", {}).get("kind") == "api":
+        import api_run
+        ok, exe, out = api_run.build()
+        ops = r["replay"].get("ops", [])
+        gl, err = api_run.run_ops(exe, ops, tag="c04r")
+        for o, g in zip(ops, gl):
+            print("%-60s %s" % (o[:60], g[:300]))
+        print("error:", err)
+        return 0
     op = r.get("replay", {}).get("op")
     ok, exe, out = vlib.build_harness("api_resume", "internal/api", HARNESS)
     d = vlib.workdir("c04r")
